@@ -48,7 +48,9 @@ class Impl:
                 return [f"k{k}", 9]
             return (9, p) if k == 9 else (f"k{k}", p)
         if u == "spec":
-            return self.Other(k=f"k{k}", p=9) if p == 9 else self.Item(k=f"k{k}", p=p)
+            # key 0 is the EMPTY string: a falsy key value reaching the default key extraction
+            ks = "" if k == 0 else f"k{k}"
+            return self.Other(k=ks, p=9) if p == 9 else self.Item(k=ks, p=p)
         if p == 9:
             return [k, 9]
         # int-keyed universe: tuples that are FALSY when their payload is 0 (a stored item may be
@@ -61,6 +63,8 @@ class Impl:
             return self.item(kp)
         if self.u == "intkey":
             return k
+        if self.u == "spec" and k == 0:
+            return ""
         return f"k{k}"
 
     def dec_item(self, o):
@@ -72,7 +76,7 @@ class Impl:
                 a, b = o.split(".")
                 return (int(a), int(b))
             if u == "spec":
-                return (int(o.k[1:]), 9 if isinstance(o, self.Other) else o.p)
+                return (0 if o.k == "" else int(o.k[1:]), 9 if isinstance(o, self.Other) else o.p)
             k, p = o[0], o[1]
             if u == "tuple":
                 return (9 if k == 9 else int(k[1:]), p)
@@ -86,6 +90,8 @@ class Impl:
                 return self.dec_item(k)
             if self.u == "intkey":
                 return (9 if k == "nine" else int(k), 0)
+            if self.u == "spec" and k == "":
+                return (0, 0)
             return (9 if k == 9 else int(k[1:]), 0)
         except Exception:
             return (60, 0)
